@@ -5,6 +5,7 @@ each theorem holds for ALL values those stages can produce, including int(NaN) a
 Only property theorems live here.
 -/
 import Interceptor.Model.Gcc
+import Interceptor.Model.RateCalc
 set_option linter.unusedVariables false
 namespace Interceptor.Gcc
 
@@ -34,8 +35,9 @@ theorem publish_spec (fixed : Bool) (c : Cfg) (st : St) (wanted : Int) (u : Usag
 /-- case analysis of `rateController.onDelayStats` + `onDelayUpdate`. -/
 theorem exec_delay_cases (fixed : Bool) (c : Cfg) (st : St) (u : Usage) (raw : Int) (P : St → Prop)
     (hst : P st) (hinit : P { st with rcInit := true })
-    (hpub : P (publish fixed c { st with rcTarget := clampInt raw c.min c.max } (clampInt raw c.min c.max) u
-      (State.increase.transition u))) :
+    (hpub : State.increase.transition u ≠ .hold →
+      P (publish fixed c { st with rcTarget := clampInt raw c.min c.max } (clampInt raw c.min c.max) u
+        (State.increase.transition u))) :
     P (execG fixed c st (.delayStats u raw)) := by
   simp only [execG]
   split
@@ -44,7 +46,7 @@ theorem exec_delay_cases (fixed : Bool) (c : Cfg) (st : St) (u : Usage) (raw : I
     · exact hinit
     · split
       · exact hst
-      · exact hpub
+      · rename_i hh; exact hpub hh
 
 /-- case analysis of `updateLossEstimate`. -/
 theorem exec_loss_cases (fixed : Bool) (c : Cfg) (st : St) (raw : Option Int) (P : St → Prop)
@@ -63,6 +65,7 @@ theorem exec_in_bounds (c : Cfg) (hc : c.min ≤ c.max) (st : St) (e : Ev)
   | close => exact h
   | delayStats u raw =>
     apply exec_delay_cases true c st u raw (fun s => c.min ≤ s.latest ∧ s.latest ≤ c.max) h h
+    intro _hh
     have hp := (publish_spec true c { st with rcTarget := clampInt raw c.min c.max } (clampInt raw c.min c.max) u
       (State.increase.transition u)).1
     rw [hp]
@@ -101,6 +104,7 @@ theorem published_in_bounds (c : Cfg) (h1 : c.min ≤ c.init) (h2 : c.init ≤ c
       | close => exact h
       | delayStats u raw =>
         apply exec_delay_cases true c st u raw (fun s => ∀ p ∈ s.pacer, c.min ≤ p ∧ p ≤ c.max) h h
+        intro _hh
         have hp := (publish_spec true c { st with rcTarget := clampInt raw c.min c.max } (clampInt raw c.min c.max) u
           (State.increase.transition u)).2.2.1
         rw [hp]
@@ -141,6 +145,7 @@ theorem target_in_bounds_unfixed_partial (c : Cfg) (h0 : 0 < c.min) (h1 : c.min 
       | delayStats u raw =>
         apply exec_delay_cases false c st u raw
           (fun s => c.min ≤ s.latest ∧ s.latest ≤ c.max ∧ c.min ≤ s.lossBitrate) h h
+        intro _hh
         have hp := publish_spec false c { st with rcTarget := clampInt raw c.min c.max } (clampInt raw c.min c.max) u
           (State.increase.transition u)
         have hb := clampInt_bounds raw c.min c.max (by omega)
@@ -186,6 +191,7 @@ theorem publish_consistent (c : Cfg) (st : St) (e : Ev) :
     apply exec_delay_cases true c st u raw
       (fun s => s.pacer = st.pacer ++ (if s.latest ≠ st.latest then [s.latest] else []) ∧
         s.cbs = st.cbs ++ (if s.latest ≠ st.latest then [s.latest] else [])) (by simp) (by simp)
+    intro _hh
     have hp := publish_spec true c { st with rcTarget := clampInt raw c.min c.max } (clampInt raw c.min c.max) u
       (State.increase.transition u)
     rw [hp.1, hp.2.2.1, hp.2.2.2.1]
@@ -257,6 +263,7 @@ theorem write_never_stuck (c : Cfg) (evs : List Ev) :
       | close => simp [exec, execG]
       | delayStats u raw =>
         apply exec_delay_cases true c st u raw (fun s => s.closed = false → s.receivers = true) h h
+        intro _hh
         have hp := publish_spec true c { st with rcTarget := clampInt raw c.min c.max } (clampInt raw c.min c.max) u
           (State.increase.transition u)
         rw [hp.2.2.2.2.1, hp.2.2.2.2.2.1]
@@ -271,4 +278,264 @@ theorem closed_is_frozen (c : Cfg) (st : St) (h : st.closed = true) (e : Ev) :
   | close => simp [exec, execG]
   | delayStats u raw => simp [exec, execG, h]
 
+/-! ## the acceptor accepts everything the skeleton can do -/
+
+/-- what the stats say about the published target (they are set by every `onDelayUpdate`). -/
+def StatsOk (c : Cfg) (latest : Int) : Option Stats → Prop
+  | none => True
+  | some s => c.min ≤ s.delayT ∧ s.delayT ≤ c.max ∧ s.lossT ≤ s.delayT ∧
+      latest = clampInt (min s.delayT s.lossT) c.min c.max ∧
+      ((s.usage = .over ∧ s.state = .decrease) ∨ (s.usage = .normal ∧ s.state = .increase))
+
+/-- invariant of the reachable states. -/
+def Inv (c : Cfg) (st : St) : Prop :=
+  c.min ≤ st.latest ∧ st.latest ≤ c.max ∧ StatsOk c st.latest st.stats
+
+theorem lastD_snoc (prev b : Int) (np : List Int) : lastD prev (np ++ [b]) = b := by
+  induction np generalizing prev with
+  | nil => rfl
+  | cons x xs ih => simp only [List.cons_append, lastD, ih]
+
+theorem chainDistinct_snoc (prev b : Int) (np : List Int) :
+    chainDistinct prev (np ++ [b]) = (chainDistinct prev np && decide (b ≠ lastD prev np)) := by
+  induction np generalizing prev with
+  | nil => by_cases h : b = prev <;> simp [chainDistinct, lastD, h]
+  | cons x xs ih =>
+    show (decide (x ≠ prev) && chainDistinct x (xs ++ [b])) = _
+    rw [ih x]
+    show _ = ((decide (x ≠ prev) && chainDistinct x xs) && decide (b ≠ lastD x xs))
+    rw [Bool.and_assoc]
+
+/-- one event: the invariant is kept, stats never vanish, nothing is published without stats. -/
+theorem exec_step (c : Cfg) (hc : c.min ≤ c.max) (st : St) (e : Ev) (h : Inv c st) :
+    Inv c (exec c st e) ∧ (st.stats.isSome = true → (exec c st e).stats.isSome = true) ∧
+    ((exec c st e).stats = none → (exec c st e).latest = st.latest) := by
+  cases e with
+  | lossUpdate raw =>
+    exact exec_loss_cases true c st raw
+      (fun s => Inv c s ∧ (st.stats.isSome = true → s.stats.isSome = true) ∧ (s.stats = none → s.latest = st.latest))
+      ⟨h, id, fun _ => rfl⟩ (fun _ => ⟨h, id, fun _ => rfl⟩)
+  | close => exact ⟨h, id, fun _ => rfl⟩
+  | delayStats u raw =>
+    apply exec_delay_cases true c st u raw
+      (fun s => Inv c s ∧ (st.stats.isSome = true → s.stats.isSome = true) ∧ (s.stats = none → s.latest = st.latest))
+      ⟨h, id, fun _ => rfl⟩ ⟨h, id, fun _ => rfl⟩
+    intro hhold
+    have hp := publish_spec true c { st with rcTarget := clampInt raw c.min c.max } (clampInt raw c.min c.max) u
+      (State.increase.transition u)
+    have hb := clampInt_bounds raw c.min c.max hc
+    refine ⟨⟨?_, ?_, ?_⟩, ?_, ?_⟩
+    · rw [hp.1]; exact (clampInt_bounds _ _ _ hc).1
+    · rw [hp.1]; exact (clampInt_bounds _ _ _ hc).2
+    · rw [hp.1, hp.2.2.2.2.2.2]
+      refine ⟨hb.1, hb.2, ?_, rfl, ?_⟩
+      · simp only [lossEstimate]; omega
+      · cases u <;> simp_all [State.transition]
+    · intro _; rw [hp.2.2.2.2.2.2]; rfl
+    · intro hn; rw [hp.2.2.2.2.2.2] at hn; cases hn
+
+/-- `st'` is reachable from `st` by events that published exactly `np`. -/
+def Rel (c : Cfg) (st : St) (np : List Int) (st' : St) : Prop :=
+  st'.pacer = st.pacer ++ np ∧ st'.cbs = st.cbs ++ np ∧ chainDistinct st.latest np = true ∧
+  lastD st.latest np = st'.latest ∧ (∀ p ∈ np, c.min ≤ p ∧ p ≤ c.max) ∧ Inv c st' ∧
+  (st.stats.isSome = true → st'.stats.isSome = true) ∧ (st'.stats = none → np = [])
+
+theorem rel_step (c : Cfg) (hc : c.min ≤ c.max) (st st' : St) (np : List Int) (e : Ev)
+    (h : Rel c st np st') : ∃ np', Rel c st np' (exec c st' e) := by
+  obtain ⟨hp, hcb, hch, hl, hbd, hinv, hs, hn⟩ := h
+  have hstep := exec_step c hc st' e hinv
+  have hpc := publish_consistent c st' e
+  by_cases hne : (exec c st' e).latest = st'.latest
+  · refine ⟨np, ?_, ?_, hch, ?_, hbd, hstep.1, fun x => hstep.2.1 (hs x), ?_⟩
+    · rw [hpc.1, hp]; simp [hne]
+    · rw [hpc.2, hcb]; simp [hne]
+    · rw [hl, hne]
+    · intro hnone
+      by_cases hs' : st'.stats = none
+      · exact hn hs'
+      · have : st'.stats.isSome = true := by
+          cases hst : st'.stats with
+          | none => exact absurd hst hs'
+          | some _ => rfl
+        have := hstep.2.1 this
+        rw [hnone] at this; cases this
+  · refine ⟨np ++ [(exec c st' e).latest], ?_, ?_, ?_, ?_, ?_, hstep.1, fun x => hstep.2.1 (hs x), ?_⟩
+    · rw [hpc.1, hp]; simp [hne]
+    · rw [hpc.2, hcb]; simp [hne]
+    · rw [chainDistinct_snoc, hch, hl]; simp [hne]
+    · exact lastD_snoc _ _ _
+    · intro p hp'
+      simp only [List.mem_append, List.mem_singleton] at hp'
+      cases hp' with
+      | inl hp' => exact hbd p hp'
+      | inr hp' => rw [hp']; exact ⟨hstep.1.1, hstep.1.2.1⟩
+    · intro hnone
+      exact absurd (hstep.2.2 hnone) hne
+
+theorem rel_run (c : Cfg) (hc : c.min ≤ c.max) (st : St) (evs : List Ev) :
+    ∀ (st' : St) (np : List Int), Rel c st np st' → ∃ np', Rel c st np' (run c st' evs) := by
+  induction evs with
+  | nil => intro st' np h; exact ⟨np, h⟩
+  | cons e es ih =>
+    intro st' np h
+    obtain ⟨np', h'⟩ := rel_step c hc st st' np e h
+    exact ih _ np' h'
+
+theorem rel_refl (c : Cfg) (st : St) (h : Inv c st) : Rel c st [] st :=
+  ⟨by simp, by simp, rfl, rfl, by simp, h, id, fun _ => rfl⟩
+
+theorem accepts_of_rel (c : Cfg) (h0 : 0 < c.min) (st st' : St) (np : List Int) (h : Rel c st np st') :
+    accepts c st.latest st.stats.isSome (observe st st') = none := by
+  obtain ⟨hp, hcb, hch, hl, hbd, hinv, hs, hn⟩ := h
+  have e1 : (observe st st').pacer = np := by simp [observe, hp]
+  have e2 : (observe st st').cbs = sortInts np := by simp [observe, hcb]
+  have e3 : (observe st st').target = st'.latest := rfl
+  have e4 : (observe st st').stats = st'.stats := rfl
+  have hany : np.any (fun p => decide (p < c.min) || decide (p > c.max)) = false := by
+    rw [List.any_eq_false]
+    intro p hp'
+    have := hbd p hp'
+    simp; omega
+  unfold accepts
+  rw [e1, e2, e3, e4]
+  have h1 : ¬ st'.latest < c.min := by have := hinv.1; omega
+  have h2 : ¬ st'.latest > c.max := by have := hinv.2.1; omega
+  have h3 : ¬ st'.latest ≤ 0 := by have := hinv.1; omega
+  simp only [h1, h2, h3, if_false, hl, ne_eq, not_true_eq_false, hch, Bool.not_true, Bool.false_eq_true, hany]
+  cases hst : st'.stats with
+  | none =>
+    have hnp := hn hst
+    have : st.stats.isSome = false := by
+      cases hss : st.stats.isSome with
+      | false => rfl
+      | true => have := hs hss; rw [hst] at this; cases this
+    simp [this, hnp]
+  | some s =>
+    have hok := hinv.2.2
+    rw [hst] at hok
+    obtain ⟨a, b, d, e, f⟩ := hok
+    have g1 : ¬ (s.delayT < c.min ∨ s.delayT > c.max) := by omega
+    simp only [Bool.or_eq_true, decide_eq_true_eq, g1, if_false]
+    have g2 : ¬ s.lossT > s.delayT := by omega
+    simp only [g2, if_false, ← e, not_true_eq_false]
+    cases f with
+    | inl f => simp [f.1, f.2]
+    | inr f => simp [f.1, f.2]
+
+/-- every reachable state satisfies the invariant. -/
+theorem inv_reachable (c : Cfg) (h1 : c.min ≤ c.init) (h2 : c.init ≤ c.max) (evs : List Ev) :
+    Inv c (run c (St.init c) evs) := by
+  have hi : Inv c (St.init c) := ⟨h1, h2, trivial⟩
+  obtain ⟨np, h⟩ := rel_run c (by omega) (St.init c) evs _ [] (rel_refl c _ hi)
+  exact h.2.2.2.2.2.1
+
+/-- ★ `acceptor_sound`: whatever the control skeleton can do during one feedback — any list of
+events, any oracle values (`raw` of the rate controller and of the loss estimator, any usages) —
+starting from any state satisfying the invariant of the reachable states, the observation the
+harness would make of it (getter, pacer calls and sorted callback values since the previous
+observation, stats) is ACCEPTED by the acceptor the driver runs (`accepts … = none`).
+Hence a `reject` printed by the driver on a trace of the real code means the code left the
+skeleton. -/
+theorem acceptor_sound (c : Cfg) (h0 : 0 < c.min) (hc : c.min ≤ c.max) (st : St) (hinv : Inv c st)
+    (evs : List Ev) :
+    accepts c st.latest st.stats.isSome (observe st (run c st evs)) = none := by
+  obtain ⟨np, h⟩ := rel_run c hc st evs st [] (rel_refl c st hinv)
+  exact accepts_of_rel c h0 st _ np h
+
+/-- `acceptor_sound` for a single event. -/
+theorem acceptor_sound_step (c : Cfg) (h0 : 0 < c.min) (hc : c.min ≤ c.max) (st : St) (hinv : Inv c st)
+    (e : Ev) : accepts c st.latest st.stats.isSome (observe st (exec c st e)) = none :=
+  acceptor_sound c h0 hc st hinv [e]
+
+/-- ★ `acceptor_sound` along a whole session: for every configuration `0 < min ≤ init ≤ max`,
+after any history `before`, the step produced by any further events is accepted with the
+bookkeeping the driver keeps (previous target, "stats were set"). -/
+theorem acceptor_sound_trace (c : Cfg) (h0 : 0 < c.min) (h1 : c.min ≤ c.init) (h2 : c.init ≤ c.max)
+    (before evs : List Ev) :
+    accepts c (run c (St.init c) before).latest (run c (St.init c) before).stats.isSome
+      (observe (run c (St.init c) before) (run c (run c (St.init c) before) evs)) = none :=
+  acceptor_sound c h0 (by omega) _ (inv_reachable c h1 h2 before) evs
+
+/-- non-vacuity: a publish step observed and accepted; the same observation with the getter
+off by one is rejected. -/
+example : accepts ⟨1000000, 5000000, 2000000⟩ 2000000 false
+    (observe (St.init ⟨1000000, 5000000, 2000000⟩) (run ⟨1000000, 5000000, 2000000⟩ (St.init ⟨1000000, 5000000, 2000000⟩)
+      [.delayStats .normal 2000000, .lossUpdate (some 617346), .delayStats .normal 2347202])) = none := by decide
+example : accepts ⟨1000000, 5000000, 2000000⟩ 2000000 false
+    { target := 1000001, pacer := [1000000], cbs := [1000000],
+      stats := some ⟨617346, 2347202, .normal, .increase⟩ } = some "getter-differs-from-last-pacer-rate" := by decide
+
 end Interceptor.Gcc
+
+/-! ## rate calculator (rate_calculator.go) -/
+
+namespace Interceptor.RateCalc
+
+theorem delCount_le (deadline : Int) (xs : List (Int × Int)) : (delCount deadline xs).1 ≤ xs.length := by
+  induction xs with
+  | nil => simp [delCount]
+  | cons x rest ih =>
+    obtain ⟨a, sz⟩ := x
+    simp only [delCount]
+    split
+    · simp only [List.length_cons]; omega
+    · simp
+
+/-- the newest packet is never deleted when the window is positive, so the window never empties. -/
+theorem delCount_lt (deadline arr sz : Int) (h : ¬ arr < deadline) (xs : List (Int × Int)) :
+    (delCount deadline (xs ++ [(arr, sz)])).1 < (xs ++ [(arr, sz)]).length := by
+  induction xs with
+  | nil => simp [delCount, h]
+  | cons x rest ih =>
+    obtain ⟨a, s⟩ := x
+    simp only [List.cons_append, delCount]
+    split
+    · simp only [List.length_cons]; omega
+    · simp
+
+theorem step_total (window : Int) (f : Int → Int → Int) (st : St) (a : Ack) :
+    ∃ r, step window f st a = .ok r := by
+  unfold step
+  cases a.arrival with
+  | none => exact ⟨_, rfl⟩
+  | some arr =>
+    simp only []
+    split
+    · exact ⟨_, rfl⟩
+    · have hle := delCount_le (arr - window) (st.history ++ [(arr, a.size)])
+      simp only [sliceFrom, hle, if_true]
+      split
+      · exact ⟨_, rfl⟩
+      · rename_i hne
+        cases hd : List.drop (delCount (arr - window) (st.history ++ [(arr, a.size)])).1 (st.history ++ [(arr, a.size)]) with
+        | nil => simp [hd] at hne
+        | cons h0 t => simp only [idx, List.getElem?_cons_zero]; exact ⟨_, rfl⟩
+
+theorem run_total (window : Int) (f : Int → Int → Int) (acks : List Ack) :
+    ∀ st, ∃ r, run window f st acks = .ok r := by
+  induction acks with
+  | nil => intro st; exact ⟨_, rfl⟩
+  | cons a as ih =>
+    intro st
+    obtain ⟨⟨st', out⟩, h⟩ := step_total window f st a
+    obtain ⟨⟨st'', out'⟩, h'⟩ := ih st'
+    exact ⟨(st'', out ++ out'), by simp only [run, h, h']⟩
+
+/-- ★ T4 `rate_calculator_total`: `rateCalculator.run` never panics — for every sequence of
+acknowledgments (lost ones, identical arrival times, decreasing arrival times, any sizes), every
+window and every value the float expression `int(float64(bits)/dt.Seconds())` can yield
+(the oracle `f`, also at `dt = 0` and `dt < 0`): the slice `history[del:]` is always in range,
+`history[0]` always exists, and the division is a float division (±Inf/NaN, no crash). -/
+theorem rate_calculator_total (window : Int) (f : Int → Int → Int) (acks : List Ack) :
+    ∃ r, run window f St.start acks = .ok r :=
+  run_total window f acks St.start
+
+/-- non-vacuity / the interesting inputs: three packets with identical arrival times and one with
+an earlier one (window 500 ms); the oracle is asked at `dt = 0`, `dt = 0` and `dt = -1 ms`
+(here it just returns `dt`), and nothing panics. -/
+example : (match run 500000000 (fun _ dt => dt) St.start
+      [⟨some 7000000, 1200⟩, ⟨none, 1200⟩, ⟨some 7000000, 1200⟩, ⟨some 7000000, 100⟩, ⟨some 6000000, 100⟩] with
+    | .ok r => r.2
+    | _ => []) = [9600, 0, 0, -1000000] := by decide
+
+end Interceptor.RateCalc
